@@ -420,7 +420,8 @@ Module POOL.
             | [] =>
                 if Z.ltb (created s) limit then
                   Some (mk (lock s) (created s + 1) [] (waiters s) (nextres s) (now s) (open s)
-                           (upd (ts s) t (setpc x GCb)) (trace s) (loc s) (ncreate s) (ndestroy s) (nleak s + 1))
+                           (upd (ts s) t (setpc x GCb)) (mkev t KBegin 3 0 (now s) 2 :: trace s)
+                           (loc s) (ncreate s) (ndestroy s) (nleak s + 1))
                 else
                   Some (mk None (created s) [] (waiters s ++ [t]) (nextres s) (now s) (open s)
                            (upd (ts s) t (setpc x GWait)) (trace s) (loc s) (ncreate s) (ndestroy s) (nleak s))
@@ -480,8 +481,8 @@ End POOL.
    readers/writer lock. *)
 Module RM.
   (* script op: o_code 0 = Get (o_a key, o_b gate inside create, o_c = 1: create returns an error,
-     o_c >= 2: create panics -- no defer of fn is active then, the flight's cleanup runs and the panic
-     reaches the caller of Get); 1 = Close *)
+     o_c = 2: create panics -- no defer of fn is active then, the flight's cleanup runs and the panic
+     reaches the caller of Get; o_c = 3: create succeeds but the resource's Close() will fail); 1 = Close *)
   Inductive pc :=
   | Idle
   | SReg               (* singleFlight.Do: join the key's flight or register a new one      l.44 *)
@@ -521,6 +522,12 @@ Module RM.
 
   Definition setpc (x : tstate) (p : pc) : tstate :=
     mkt p (t_key x) (t_gate x) (t_fail x) (t_rv x) (t_re x) (t_todo x) (t_res x).
+  (* a resource whose Close() fails is scripted by its handle *)
+  Definition close_fails (id : nat) : bool := Nat.leb 1000 id.
+  Definition close_events (t : nat) (rs : list (nat * nat)) : list ev :=
+    map (fun kv => mkev t KEnd 1 (snd kv) 0 (if close_fails (snd kv) then 1 else 0)) rs.
+  Definition close_err (rs : list (nat * nat)) : nat :=
+    if existsb (fun kv => close_fails (snd kv)) rs then 1 else 0.
   Definition setpcr (x : tstate) (p : pc) (rv re : nat) : tstate :=
     mkt p (t_key x) (t_gate x) (t_fail x) rv re (t_todo x) (t_res x).
 
@@ -574,10 +581,11 @@ Module RM.
         | CrB c => ret (setpc x (CrE c)) (mkev t KBegin 0 (t_key x) 0 0)
         | CrE c =>
             if gate_open (open s) (t_gate x) then
-              if Nat.eqb (t_fail x) 0 then
-                let id := nextid s in
+              if Nat.eqb (t_fail x) 0 || Nat.eqb (t_fail x) 3 then
+                (* o_c = 3: the resource's own Close() will return an error; the handle encodes it (+1000) *)
+                let id := nextid s + (if Nat.eqb (t_fail x) 3 then 1000 else 0) in
                 Some (mk (calls s) (wg s) (cval s) (cerr s) (next s) (resources s) (closed s) (readers s) (writer s)
-                         (S id) (open s) (upd (ts s) t (setpcr x (FWLock c) id 0))
+                         (S (nextid s)) (open s) (upd (ts s) t (setpcr x (FWLock c) id 0))
                          (mkev t KEnd 0 (t_key x) id 0 :: trace s) (cre s)
                          (upd (ncre s) (t_key x) (S (ncre s (t_key x)))) (closedids s))
               else let code := if Nat.eqb (t_fail x) 1 then 1 else 2 in   (* create returned an error / panicked *)
@@ -608,14 +616,16 @@ Module RM.
             | _, _ => None
             end
         | CClose =>
+            (* for _, r := range m.resources { if err := r.Close(); err != nil { be.Add(err) } }; m.resources = nil:
+               every resource is closed, failing ones included; the error is only collected *)
             Some (mk (calls s) (wg s) (cval s) (cerr s) (next s) [] true (readers s) (writer s) (nextid s) (open s)
-                     (upd (ts s) t (setpc x CUnlock))
-                     (rev (map (fun kv => mkev t KEnd 1 (snd kv) 0 0) (resources s)) ++ trace s)
+                     (upd (ts s) t (setpcr x CUnlock 0 (close_err (resources s))))
+                     (rev (close_events t (resources s)) ++ trace s)
                      (cre s) (ncre s) (map snd (resources s) ++ closedids s))
         | CUnlock =>
             Some (mk (calls s) (wg s) (cval s) (cerr s) (next s) (resources s) (closed s) (readers s) None (nextid s) (open s)
-                     (upd (ts s) t (mkt Idle (t_key x) (t_gate x) (t_fail x) (t_rv x) (t_re x) (t_todo x) ((0, 0) :: t_res x)))
-                     (mkev t KRet 1 0 0 0 :: trace s) (cre s) (ncre s) (closedids s))
+                     (upd (ts s) t (mkt Idle (t_key x) (t_gate x) (t_fail x) (t_rv x) (t_re x) (t_todo x) ((t_re x, 0) :: t_res x)))
+                     (mkev t KRet 1 (t_re x) 0 0 :: trace s) (cre s) (ncre s) (closedids s))
         end
     end.
 
